@@ -236,6 +236,36 @@ PROPS = {
         "technique": "deterministic simulation with exhaustive single-fault "
         "and crash-point injection per seeded scenario",
     },
+    "C14": {
+        "flavours": ["tsan", "asan"],
+        "runs": {"quick": 1200, "thorough": 50000},
+        "rule": "one case = base configuration open to drop-ins, 0-3 files "
+        "present at start-up and 1-10 operations by an actor thread on the "
+        "real drop-in directory (create+write in 1-3 writes, truncate-and-"
+        "rewrite, rename in / out / within, unlink, dot-files, rm -r and "
+        "mkdir of the directory) with valid, partial, garbage, wrong-target, "
+        "unknown-plugin, empty and exception-provoking contents, at virtual "
+        "instants relative to the ticks; real Oomd::run main loop + real "
+        "FsDropInService watcher thread on real inotify/epoll/eventfd, three "
+        "threads under the deterministic scheduler; EINTR and spurious "
+        "wake-ups injected; non-trivial = more than two context switches; "
+        "distinct = distinct (event log, schedule) hash",
+        "level_text": "seeded exploration of file-operation sequences x "
+        "thread interleavings; oracles: no deadlock / crash / exception out "
+        "of the main loop or the watcher thread / TSan or ASan report, clean "
+        "shutdown; once the actor has been quiet for >= 3 ticks the set of "
+        "drop-in detectors that run equals the valid non-dot files present, "
+        "each with its latest content (every file version carries a unique "
+        "detector id); files present at start-up are evaluated in reverse "
+        "name order.",
+        "real": ["Oomd::run, FsDropInService (watcher thread, inotify, epoll, "
+                 "eventfd), DropInServiceAdaptor, JsonConfigParser, "
+                 "compileDropIn, Engine"],
+        "stubs": ["thread scheduling (baton scheduler)", "virtual clock", "the "
+                  "actor thread is harness code using real file-system calls",
+                  "Stats singleton's accept thread runs outside the scheduler "
+                  "and takes no part"],
+    },
     "C19": {
         "flavours": ["tsan", "asan"],
         "runs": {"quick": 1500, "thorough": 60000},
